@@ -203,6 +203,11 @@ Definition sk_run_mp : list ev :=
    Handler "concurrent.futures.process.BrokenProcessPool";
    RaiseE "FileSearchException";
    FinallyB;
+   Call "store_lock_try_acquire";
+   IfB;
+   Else;
+   IfE;
+   Call "store_lock_force_release";
    Call "results_stop";
    Call "info_stop";
    TryE].
